@@ -20,6 +20,7 @@ import Driver.SourceChk
 import Driver.SrcChk
 import Driver.BlockChk
 import Driver.EventChk
+import Driver.RefChk
 /-! `dvdriver`: line-protocol driver over the Lean models — the same definitions the theorems are about.
     One operation per line in, one canonical result per line out; the C harnesses answer the same lines with
     the real library and the check diffs the two streams. -/
@@ -248,4 +249,5 @@ def main (args : List String) : IO UInt32 := do
   | "srcview" :: paths => SrcChk.main paths
   | "block" :: paths => BlockChk.main paths
   | "event" :: paths => EventChk.main paths
+  | "ref" :: paths => RefChk.main paths
   | _ => loop (← IO.getStdin) (← IO.getStdout); return 0
